@@ -183,7 +183,7 @@ static struct lnode *deq(void)
 	if (r) {
 		if (r->dummy)
 			usim_fail("lfq-dummy-returned", "cds_lfq_dequeue_rcu returned an internal dummy node");
-		n = caa_container_of(r, struct lnode, n);
+		n = caa_container_of(RET_NODE(r, "cds_lfq_dequeue_rcu"), struct lnode, n);
 		if (n->magic != LMAGIC)
 			usim_fail("lfq-dummy-returned", "cds_lfq_dequeue_rcu returned a node that is not a user node");
 	}
